@@ -22,7 +22,8 @@ pub mod futures {
             fn read(&mut self, buf: &mut [u8]) -> crate::shims::std::io::Result<usize>;
         }
         pub trait AsyncBufReadExt { }
-        pub trait AsyncWrite { }
+        pub use crate::shims::write_trait::AsyncWrite;
+        /// the extension methods live on the AsyncWrite shim itself
         pub trait AsyncWriteExt { }
     }
     pub mod stream { pub trait StreamExt { } }
